@@ -9,8 +9,6 @@ structure D where
   ids : Std.HashMap String Nat := {}
   next : Nat := 1
   rejected : Bool := false
-  mutexes : List Nat := []
-  sems : List (Nat × Bool) := []
   kinds : Std.HashMap String String := {}
 
 def intern (d : D) (n : String) : D × Nat :=
@@ -91,15 +89,17 @@ def step (d : D) (toks : List String) : D × String :=
   | ["obj", kind, name] | ["obj", kind, name, _] | ["obj", kind, name, _, _] =>
     let (d, i) := intern d name
     let d := { d with kinds := d.kinds.insert name kind }
-    match kind, toks with
-    | "mutex", _ => ({ d with mutexes := d.mutexes ++ [i] }, "ok")
-    | "rmutex", _ => ({ d with mutexes := d.mutexes ++ [i] }, "ok")
-    | "sem", [_, _, _, c, ino] =>
-      let c := c.toNat?.getD 0
-      match Photon.Sync.step d.st (.semInit i c) with
-      | .ok s => ({ d with st := s, sems := d.sems ++ [(i, decide (ino = "1"))] }, "ok")
+    let ev : Option Ev := match kind, toks with
+      | "mutex", _ => some (.mutexInit i)
+      | "rmutex", _ => some (.mutexInit i)
+      | "sem", [_, _, _, c, ino] => some (.semInit i (c.toNat?.getD 0) (decide (ino = "1")))
+      | _, _ => none
+    match ev with
+    | none => (d, "ok")
+    | some ev =>
+      match Photon.Sync.step d.st ev with
+      | .ok s => ({ d with st := s }, "ok")
       | .error m => ({ d with rejected := true }, "reject " ++ m)
-    | _, _ => (d, "ok")
   | _ =>
     if d.rejected then (d, "skip") else
     let (d1, evs) := events d toks
@@ -108,13 +108,17 @@ def step (d : D) (toks : List String) : D × String :=
       | some w => if w.startsWith "@" then (match (w.drop 1).toString.toNat? with | some n => Ev.tick n :: evs | none => evs) else evs
       | none => evs
     match run d1.st evs with
-    | .error m => ({ d1 with rejected := true }, "reject " ++ m)
+    | .error m =>
+      -- say which waiter is stuck when the quiescence guard is what failed
+      let detail := match toks with
+        | ["q", n] => (match run d1.st [Ev.tick (n.toNat?.getD 0)] with
+            | .ok s1 => "; ".intercalate (stuckAtQuiescence s1)
+            | .error _ => "")
+        | _ => ""
+      ({ d1 with rejected := true }, "reject " ++ m ++ (if detail.isEmpty then "" else " [" ++ detail ++ "]"))
     | .ok s =>
       let d2 := { d1 with st := s }
       match toks with
-      | ["q", _] =>
-        let stuck := stuckAtQuiescence s d2.mutexes d2.sems
-        (d2, if stuck.isEmpty then "ok" else "ok stuck: " ++ "; ".intercalate stuck)
       | ["qs", "mutex", m, ow] | ["fs", "mutex", m, ow] =>
         let (d3, mi) := intern d2 m
         let want := match (s.mutex mi).owner with | none => "owner=-" | some t => "owner=" ++ showName d3 t
